@@ -110,6 +110,10 @@ func canonicalList(dst *Segment, l List) (List, error) {
 		}
 		end, _ := l.off.addSize(sz) // list was already validated
 		copy(dst.data[newAddr:], l.seg.data[l.off:end])
+		if n := uint(l.length % 8); l.flags&isBitList != 0 && n != 0 {
+			// Unused bits of the last byte are padding: zero in canonical form.
+			dst.data[int(newAddr)+int(sz)-1] &= 1<<n - 1
+		}
 		return cl, nil
 	}
 	if l.flags&isCompositeList == 0 {
